@@ -59,11 +59,32 @@ def patch_tokens(name, mi):
         return ["x:2:%s:0:4" % name[7:]]  # mov dword ptr [rip+sym], imm32: disp32 at +2, then the immediate
     if name.startswith("ripimm4:"):
         return ["x:2:%s:4:4" % name[8:]]  # cmp byte ptr [rip+sym+4], imm8
+    if name.startswith("cfiraw:"):
+        # the statements exactly as written (no instruction added in front or behind)
+        toks = []
+        for d in name[7:].split(";"):
+            d = d.strip()
+            if d.startswith(".cfi"):
+                toks.append("cfi:" + d)
+            elif d.endswith(":"):
+                toks.append("L:" + d[:-1])
+            elif d.startswith("jmp "):
+                toks.append("jmp:" + d[4:])
+            else:
+                toks.append("o")
+        return toks
     if name.startswith("cfi:"):
         toks = ["o"]
         for d in name[4:].split(";"):
             d = d.strip()
-            toks.append("cfi:" + d if d.startswith(".cfi") else "o")
+            if d.startswith(".cfi"):
+                toks.append("cfi:" + d)
+            elif d.endswith(":"):
+                toks.append("L:" + d[:-1])  # a label between the directives of a patch
+            elif d.startswith("jmp "):
+                toks.append("jmp:" + d[4:])
+            else:
+                toks.append("o")
         toks.append("o")
         return toks
     return table[name]
